@@ -139,7 +139,11 @@ func (f *futureProcess[M]) DeliveryUserMessage(receiver, sender, forward *prc.Pr
 		return
 	}
 
-	switch m := message.(type) {
+	reply := message
+	if wrapper, ok := message.(*prc.MessageWrapper); ok {
+		reply = wrapper.Message
+	}
+	switch m := reply.(type) {
 	case error:
 		f.Close(m)
 	default:
